@@ -159,7 +159,13 @@ inline CallRec exec_op(Vec& v, const Op& op, int tid, int callno, uint64_t scn, 
     if (c.outcome == O_BOOM && !cfg.faults_possible) ts.fail("unexpected-exception", rec_str(c) + ": Boom without an armed fault");
     if (c.outcome == O_OK && op.kind != K_RESERVE) {
         c.start = (uint64_t)(it - v.begin());
-        if (gtal_kind(op.kind)) c.count = c.start < op.arg ? op.arg - c.start : 0;
+        if (gtal_kind(op.kind)) {
+            // what the call appended = what this thread constructed inside the vector during it; without allocation failures that
+            // must be [returned index, n) (after a failed allocation size() may stay below n and the returned end() means nothing)
+            uint64_t inferred = c.start < op.arg ? op.arg - c.start : 0;
+            c.count = (uint64_t)c.ctors;
+            if (!cfg.alloc_faults && c.count != inferred) { ts.fail("gtal-appended-count", rec_str(c) + ": returned index " + std::to_string(c.start) + " implies " + std::to_string(inferred) + " appended elements, the call constructed " + std::to_string(c.count)); c.count = 0; }
+        }
         if (op.kind == K_GROW || op.kind == K_GROW_VAL || op.kind == K_GROW_ITER) if (op.arg == 0) c.count = 0;
         verify_own(v, it, c, ts);
         if (gtal_kind(op.kind) && op.arg > 0 && !cfg.alloc_faults && !(cfg.cls == 'M')) {
@@ -258,10 +264,15 @@ inline Plan gen_plan(Rng& r, int cls, long case_index) {
         if (singles == 0) { Op o; o.kind = K_PUSH_COPY; p.ops[0].push_back(o); singles = 1; }
         p.fault = F_CTOR; p.fault_at = case_index % singles;
     } else if (cls == 'M') {
-        if (g.chance(1, 2)) { p.fault = F_CTOR; p.fault_at = (long)((uint64_t)case_index * 7 % (total - est + 1)); }
+        // most plans avoid the calls that wedge most easily on the known defect (grow_to_at_least waits for every lower segment) and
+        // put the fault late, so that a process judges a fair number of scenarios strictly before it meets the known wedge
+        bool calm = g.chance(2, 3);
+        if (calm) for (int t = 0; t < p.nthreads; t++) for (auto& o : p.ops[t]) if (gtal_kind(o.kind)) { o.kind = o.kind == K_GTAL ? K_GROW : K_GROW_VAL; o.arg = gen_delta(g, 0); }
+        uint64_t cons = 0; for (int t = 0; t < p.nthreads; t++) for (auto& o : p.ops[t]) cons += gtal_kind(o.kind) ? 8 : op_growth(o, 0);
+        if (g.chance(1, 2)) { p.fault = F_CTOR; uint64_t k = (uint64_t)case_index * 7 % (cons + 1); p.fault_at = (long)(calm && g.chance(1, 2) ? cons - k / 3 - (cons ? 1 : 0) : k); if (p.fault_at < 0) p.fault_at = 0; }
         else { p.fault = F_ALLOC; p.fault_at = case_index % (3 + seg_of(total + 1)); }
         int np = (int)g.below(4);
-        for (int i = 0; i < np; i++) { Op o = gen_op(g, total, 0); if (g.chance(1, 3)) { o.kind = K_GTAL_VAL; o.arg = 1 + g.below(total + 2); } p.post.push_back(o); }
+        for (int i = 0; i < np; i++) { Op o = gen_op(g, total, 0); if (calm && gtal_kind(o.kind)) o.kind = K_PUSH_COPY; else if (g.chance(1, 3)) { o.kind = K_GTAL_VAL; o.arg = 1 + g.below(total + 2); } p.post.push_back(o); }
     }
     return p;
 }
